@@ -216,6 +216,10 @@ func init() {
 	externals[rt("LastPanic")] = func(fr *frame, args []value) value { return fr.i.lastPanic }
 
 	// --- runtime -----------------------------------------------------------------
+	// package initialisers that parse embedded data with code outside the engine's reach and do not
+	// influence any checked behaviour (vendored RSA keys: PEM/x509 parsing)
+	externals["github.com/gotd/td/mtproto.init#1"] = func(fr *frame, args []value) value { return nil }
+	externals["github.com/gotd/td/telegram.init#1"] = func(fr *frame, args []value) value { return nil }
 	externals["runtime.Callers"] = func(fr *frame, args []value) value { return 0 }
 	externals["runtime.KeepAlive"] = func(fr *frame, args []value) value { return nil }
 	externals["runtime.Gosched"] = func(fr *frame, args []value) value { fr.i.yield(); return nil }
